@@ -688,7 +688,7 @@ pub fn run(ctx: &RunCtx) -> i32 {
     let secrets = secrets(ctx.seed);
     let n = ctx.tier.sz(4000, 240_000);
     let per = 10u64;
-    let total = par_run(ctx.workers, n.div_ceil(per), |j, r| {
+    let mut total = par_run(ctx.workers, n.div_ceil(per), |j, r| {
         let rt = new_runtime();
         let mut g = Rng::new(derive_seed(ctx.seed, "C10", j));
         // every other job sends all its requests through one reused service instance per configuration
@@ -719,11 +719,16 @@ pub fn run(ctx: &RunCtx) -> i32 {
         }
         r.count("requests_served_by_a_reused_service_instance", session_end());
     });
+    // transport faults (DESIGN 9.2): the body fails in transit instead of yielding frame k
+    total.merge(crate::monitor::c09::transport_fault_leg(ctx, "C10", &["post-form"], ctx.tier.sz(150, 6000)));
     finish(ctx, &meta, &total)
 }
 
 pub fn replay(v: &Value) -> i32 {
     let w = &v["witness"];
+    if w["kind"] == "transport-fault" {
+        return super::replay_verdict("C10", &crate::engine::replay_transport_fault("C10", w));
+    }
     let mut r = Report::new();
     let rt = new_runtime();
     let case: Case = serde_json::from_value(w["case"].clone()).unwrap_or_else(|e| harness_error(&format!("bad case: {e}")));
